@@ -45,3 +45,9 @@ CORPUS += [
     M("n-port-explicit-unsigned", D, 'port = int.from_bytes(decrypted_mv[4:6], "little")', 'port = int.from_bytes(decrypted_mv[4:6], "little", signed=False)', "S"),
     M("handler-narrowed-imported", D, "except (ValueError, LookupError, OSError, ET.ParseError) as e:", "except (ValueError, KeyError, OSError, ET.ParseError) as e:"),
 ]
+# round 5 (C17.e): replies are collected for the whole timeout
+CORPUS += [
+    M("listening-window-capped", D, "            await asyncio.sleep(timeout)\n", "            await asyncio.sleep(min(timeout, 1))\n"),
+    M("listening-window-skipped-for-hosts", D, "            await asyncio.sleep(timeout)\n", "            if target == _IPV4_BROADCAST:\n                await asyncio.sleep(timeout)\n            else:\n                await asyncio.sleep(0.5)\n"),
+    M("n-listening-window-via-local", D, "            await asyncio.sleep(timeout)\n", "            delay = timeout\n            await asyncio.sleep(delay)\n", "S"),
+]
